@@ -35,8 +35,14 @@ type RdbReplay struct {
 func (rr *RdbReplay) Replay(e *rdb.BinEntry) (err error) {
 	var ttlms uint64
 	if rr.ReplaceHashTag {
-		e.Key = bytes.Replace(e.Key, []byte("{"), []byte(""), 1)
-		e.Key = bytes.Replace(e.Key, []byte("}"), []byte(""), 1)
+		// the later parts of a split value arrive with the key the first part has already rewritten :
+		// always start from the key found in the snapshot, else a second brace pair is removed too
+		src := e.Key
+		if e.ObjectParser != nil && len(e.ObjectParser.Key()) > 0 {
+			src = e.ObjectParser.Key()
+		}
+		key := bytes.Replace(src, []byte("{"), []byte(""), 1)
+		e.Key = bytes.Replace(key, []byte("}"), []byte(""), 1)
 	}
 	if e.ExpireAt != 0 {
 		now := uint64(time.Now().UnixNano())
